@@ -183,6 +183,8 @@ _MORE = {
     # attribution after round d
     ('mchap.application.baseclass', 'program.encode_sample_reads'): ['C03'],       # the read tensor and counts every likelihood is taken of
     ('mchap.application.baseclass', 'program.require_AFP'): ['C03'],                # which report fields switch the posterior summaries on
+    ('mchap.calling.classes', 'CallingMCMC.fit'): ['C02', 'C14'],                 # chains run, collected and wrapped into the multi-trace
+    ('mchap.pedigree.classes', 'PedigreeCallingMCMC.fit'): ['C18', 'C14'],
     ('mchap.io.loci', '_merge_snps'): ['C06'],
     ('mchap.io.loci', 'Locus.set_variants'): ['C12'],                               # which variant records belong to a locus (SNVPOS)
     ('mchap.application.assemble', '_genotype_posterior_as_array'): ['C14'],      # GP of assemble: the retained trace's genotype frequencies by G-index                                       # records of one position must share the reference base
